@@ -76,7 +76,11 @@ Picks(p, rt, tg, b) ==
        [] PickRule = "insertion" -> OldestSets(rdy, [i \in rdy |-> S.ord[i]], k)
        [] PickRule = "nextrun" ->
             \* next_run_at, received_at, then insertion (rowid) order
-            OldestSets(rdy, [i \in rdy |-> (p.msgs[i].next * 100000 + p.msgs[i].recv) * 100 + S.ord[i]], k)
+            \* (the key is the lexicographic rank: a numeric encoding of the triple overflows TLC's 32-bit integers)
+            LET less(j, i) == \/ p.msgs[j].next < p.msgs[i].next
+                              \/ p.msgs[j].next = p.msgs[i].next /\ p.msgs[j].recv < p.msgs[i].recv
+                              \/ p.msgs[j].next = p.msgs[i].next /\ p.msgs[j].recv = p.msgs[i].recv /\ S.ord[j] < S.ord[i]
+            IN OldestSets(rdy, [i \in rdy |-> Cardinality({j \in rdy : less(j, i)})], k)
 
 Deq ==
   \E rt \in {"", "/r1"}, tg \in {"", "t1"}, b \in {1, 2}, ttl \in TTLs :
